@@ -182,6 +182,10 @@ def run(ctx):
         raise CheckerError("no ToString arm in BuiltInFunction::call")
     calls = [H.last(n.get("def") or "") for n in H.walk(ts["body"]) if H.kind(n) == "MethodCall" and (n.get("def") or "").startswith("blots_core::values::Value::stringify")]
     ctx.inst("C16.R1", "functions::BuiltInFunction::call[ToString]", calls == ["stringify_internal"], "to_string renders with %s" % calls, H.loc(ts["body"]))
+    # ... for every number: no branch of the arm picks numbers (or some of them) out for a spelling of its own
+    own = [H.loc(x) for x in H.walk(ts["body"]) if isinstance(x, dict) and x.get("pat") is not None and any(v.endswith("values::Value::Number") for v in H.pat_variants(x["pat"]))]
+    own += [H.loc(x) for x in H.walk(ts["body"]) if H.kind(x) == "MethodCall" and x["name"] in ("is_number", "as_number")]
+    ctx.inst("C16.R1", "functions::BuiltInFunction::call[ToString]#numbers-not-special-cased", not own, "branches of to_string that select numbers: %s (a number spelled by anything but stringify_internal need not read back as itself: `-0` printed as `0`)" % (own or "none"), H.loc(ts["body"]))
     si = core.hir_fn("blots_core::values::Value::stringify_internal")
     lits = [H.lit(a)["v"] for n in H.walk(si["body"]) if H.kind(n) == "MethodCall" and n["name"] == "stringify" for a in n["args"] if H.lit(a) is not None]
     ctx.inst("C16.R1", "values::Value::stringify_internal#flags", lits == ["false", "false"], "stringify(heap, %s)" % ", ".join(lits), H.loc(si["body"]))
@@ -350,9 +354,46 @@ def run(ctx):
         ctx.inst("C16.R3", "grammar#exponent-on-every-decimal-form", v_exp, "alternatives of decimal_number: %d; each can be followed by an exponent: %s" % (len(alts_), v_exp), "blots-core/src/grammar.pest")
     except CheckerError as ex_:
         ctx.inst("C16.R3", "grammar#exponent-on-every-decimal-form", None, "not read: %s" % ex_, "blots-core/src/grammar.pest")
-    ctx.rule("C16.R4", "a negative literal is read as Negate(number) and evaluated as the IEEE negation, so the text `-0` reads back as -0 (not as 0 - 0 = +0)", floor=1)
+    # `1_000.5`: digit groups belong to the integer part, the fraction follows them, the exponent follows both
+    try:
+        found_ = []
+
+        def seqs_of(e):
+            """every maximal sequence below e, flattened"""
+            if e["k"] == "seq":
+                els = G.seq(e)
+                yield els
+                for el in els:
+                    yield from seqs_of(el)
+            else:
+                for k_ in ("a", "b", "e"):
+                    if isinstance(e.get(k_), dict):
+                        yield from seqs_of(e[k_])
+        seen_ids = set()
+        for sq in seqs_of(dn):
+            sid = id(sq[0])
+            if sid in seen_ids:
+                continue
+            seen_ids.add(sid)
+            i_us = next((i for i, el in enumerate(sq) if el["k"] in ("rep", "rep1") and any(x["k"] == "str" and x["v"] == "_" for x in G.walk(el))), None)
+            i_fr = next((i for i, el in enumerate(sq) if el["k"] == "opt" and any(x["k"] == "str" and x["v"] == "." for x in G.walk(el))), None)
+            if i_us is not None and i_fr is not None:
+                found_.append(i_us < i_fr)
+        ctx.inst("C16.R3", "grammar#digit-groups-before-fraction", None if not found_ else all(found_), "sequences of decimal_number holding both `_` groups and an optional fraction: %d; the groups precede the fraction in each: %s (otherwise `1_000.5` is not a literal)" % (len(found_), found_), "blots-core/src/grammar.pest")
+    except CheckerError as ex_:
+        ctx.inst("C16.R3", "grammar#digit-groups-before-fraction", None, "not read: %s" % ex_, "blots-core/src/grammar.pest")
+    ctx.rule("C16.R4", "a negative literal is read as Negate(number) and evaluated as the IEEE negation, so the text `-0` reads back as -0 (not as 0 - 0 = +0); the sign binds tighter than every infix operator, so a negative number emitted bare in front of `^` or `??` is still that number", floor=3)
     from rules import c11 as c11_
     c11_.unary_rule(ctx, "C16.R4", core)
+    # a negative number is emitted as `-` and its digits, bare: it reads back as that number only while the sign binds tighter than
+    # every infix operator around it (`-3 ^ x` must stay `(-3) ^ x`)
+    from rules import c10 as c10_
+    from rules.c04 import _Only
+    c10_.CRATE[0] = core
+    try:
+        c10_.binding_levels_rule(_Only(ctx, lambda k_: k_ in ("op=negation", "build_pratt_parser#nothing-between-infix-levels", "build_pratt_parser#shape")), "C16.R4", core, c10_.precedence_rows(core))
+    except CheckerError as ex_:
+        ctx.inst("C16.R4", "op=negation", None, "binding levels not read: %s" % ex_, "blots-core/src/precedence.rs")
     tn = arms.get("ToNumber")
     if tn is None:
         raise CheckerError("no ToNumber arm")
